@@ -1,6 +1,6 @@
 (* The configuration store's write (Model/CfgStore.v store_write, repaired version) seen through the live leaves. *)
 From Coq Require Import List NArith Bool.
-From OC Require Import Base.Bytes Model.Merge Model.CfgStore Proofs.MergeProofs Proofs.PathProofs Proofs.PruneProofs.
+From OC Require Import Base.Bytes Model.Merge Model.CfgStore Proofs.MergeProofs Proofs.TextPathProofs Proofs.PruneProofs.
 Import ListNotations.
 Open Scope N_scope.
 
